@@ -1,4 +1,416 @@
 import DuneVerif.Model.C11
+import DuneVerif.Proofs.C11.ArrayList
+import DuneVerif.Proofs.C11.SLList
+import DuneVerif.Proofs.C11.ReservedVector
+import DuneVerif.Proofs.C11.BitSetVector
+import DuneVerif.Proofs.C11.Lru
+/-!
+# C11 — containers behave as their abstract sequence / map under every operation history
+
+Property theorems only (helper lemmas live in `Proofs/C11/*.lean`, the executable models in `Model/C11/*.lean`).
+All statements hold for every chunk size / capacity / block size, every element type and every history; each is
+followed by an `example` exhibiting a concrete non-trivial input that satisfies its hypotheses.
+Core Lean only — no Mathlib import.
+-/
 namespace DV.C11
-theorem placeholder : True := trivial
+
+/-! ## ArrayList<T,N>  (`Model/C11/ArrayList.lean`)
+
+`AL.Inv N s` : `capacity_ = N·|chunks_|`, `start_+size_ ≤ capacity_`, every chunk from `start_/N` on is allocated
+with `N` slots, every chunk in front of it has been `reset()`.
+`AL.abs N s` : what `begin() … end()` shows. -/
+section ArrayList
+variable {α : Type} {N : Nat}
+
+/-- `push_back` appends, keeps the invariant -/
+theorem al_push_back_refines (hN : 0 < N) (d : α) {s : AL.State α} (h : AL.Inv N s) (x : α) :
+    AL.abs N (AL.push N d s x) = AL.abs N s ++ [x] ∧ AL.Inv N (AL.push N d s x) :=
+  ⟨AL.abs_push hN d h x, AL.inv_push hN d h x⟩
+
+/-- `eraseToHere` on an iterator at absolute position `p` inside the window drops the first `p+1-start_` elements -/
+theorem al_erase_refines (hN : 0 < N) {s : AL.State α} (h : AL.Inv N s) {p : Nat} (hp : s.start ≤ p)
+    (hp2 : p < s.start + s.size) :
+    AL.abs N (AL.eraseToHere N s p) = (AL.abs N s).drop (p + 1 - s.start) ∧ AL.Inv N (AL.eraseToHere N s p) :=
+  ⟨AL.abs_erase hN h hp, AL.inv_erase hN h hp hp2⟩
+
+/-- `purge` (as repaired by fixes/C11_arraylist_purge.patch) changes nothing observable and keeps the invariant -/
+theorem al_purge_refines (hN : 0 < N) {s : AL.State α} (h : AL.Inv N s) :
+    AL.abs N (AL.purge N s) = AL.abs N s ∧ AL.Inv N (AL.purge N s) ∧ (AL.purge N s).start < N :=
+  ⟨AL.abs_purge hN h, AL.inv_purge hN h, by rw [AL.purge_start]; exact Nat.mod_lt _ hN⟩
+
+theorem al_clear_refines (s : AL.State α) : AL.abs N (AL.clear s) = [] ∧ AL.Inv N (AL.clear s) :=
+  ⟨AL.abs_clear N s, AL.inv_clear N s⟩
+
+/-- writing through `operator[]` -/
+theorem al_set_refines (hN : 0 < N) {s : AL.State α} (h : AL.Inv N s) {k : Nat} (hk : k < s.size) (x : α) :
+    AL.abs N (AL.set N s k x) = (AL.abs N s).set k x ∧ AL.Inv N (AL.set N s k x) :=
+  ⟨AL.abs_set hN h hk x, AL.inv_set h k x⟩
+
+/-- random access and `size()` agree with the abstract sequence (so no element of the window is ever missing) -/
+theorem al_get_refines (hN : 0 < N) {s : AL.State α} (h : AL.Inv N s) :
+    (AL.abs N s).length = s.size ∧ ∀ i, i < s.size → AL.get N s i = (AL.abs N s)[i]? ∧ (AL.get N s i).isSome :=
+  ⟨AL.abs_length hN h, fun i hi =>
+    ⟨AL.get_eq_abs hN h hi, h.elementAt_isSome hN (by omega) (by have := h.le; omega)⟩⟩
+
+/-- the iterator-validity promise: an iterator is an absolute position; after `push_back` every position of the
+    old window still denotes the same element, and the old `end()` denotes the new element -/
+theorem al_iter_stable_under_push (hN : 0 < N) (d : α) {s : AL.State α} (h : AL.Inv N s) (x : α) :
+    (∀ p, s.start ≤ p → p < AL.endPos s → AL.elementAt N (AL.push N d s x) p = AL.elementAt N s p ∧
+        (AL.elementAt N s p).isSome) ∧
+      AL.elementAt N (AL.push N d s x) (AL.endPos s) = some x ∧
+      AL.beginPos (AL.push N d s x) = AL.beginPos s ∧ AL.endPos (AL.push N d s x) = AL.endPos s + 1 :=
+  ⟨fun p h1 h2 => ⟨AL.elementAt_push_lt hN d h x h2, h.elementAt_isSome hN h1 (by have := h.le; simp [AL.endPos] at h2; omega)⟩,
+    AL.elementAt_push_end hN d h x,
+    AL.push_start N d s x,
+    by simp [AL.endPos, AL.push_start, AL.push_size]; omega⟩
+
+/-- iterators positioned behind the one `eraseToHere` was called on stay valid -/
+theorem al_iter_stable_under_erase {s : AL.State α} {p j : Nat} (hp : s.start ≤ p) (hj : p < j) :
+    AL.elementAt N (AL.eraseToHere N s p) j = AL.elementAt N s j :=
+  AL.elementAt_erase s hp hj
+
+/-- `eraseToHere`'s chunk-count formula frees exactly the chunks between the old and the new start chunk -/
+theorem al_freed_count_formula {start pos : Nat} (h : start ≤ pos) :
+    (pos - start + start % N) / N = pos / N - start / N :=
+  AL.freed_count h
+
+/-- **all histories**: after any sequence of push_back / eraseToHere / purge / clear / operator[]= (operations
+    outside their precondition skipped), the list shows exactly what the same history gives on a plain sequence -/
+theorem al_runs_refine (hN : 0 < N) (d : α) (ops : List (AL.Op α)) :
+    AL.Inv N (AL.run N d AL.empty ops) ∧ AL.abs N (AL.run N d AL.empty ops) = AL.specRun [] ops := by
+  have := AL.run_refines hN d ops (AL.inv_empty N (α := α))
+  have h0 : AL.abs N (AL.empty : AL.State α) = [] := rfl
+  rw [h0] at this
+  exact this
+
+/-- non-vacuity: the history of DESIGN.md section 6 #4 (erase across a chunk boundary, purge, append) -/
+example : AL.abs 2 (AL.run 2 (0 : Int) AL.empty [.push 0, .push 1, .push 2, .push 3, .push 4, .push 5, .erase 1, .purge, .push 99])
+    = [2, 3, 4, 5, 99] := by decide
+example : ∃ s : AL.State Int, AL.Inv 2 s ∧ 0 < s.start / 2 ∧ s.size = 3 ∧ s.start % 2 + s.size = 3 :=
+  ⟨AL.run 2 0 AL.empty [.push 0, .push 1, .push 2, .push 3, .push 4, .erase 1],
+    (AL.run_refines (by decide) 0 _ (AL.inv_empty 2)).1, by decide, by decide, by decide⟩
+example : (7 - 3 + 3 % 2) / 2 = 7 / 2 - 3 / 2 := by decide
+
+end ArrayList
+
+/-! ## lru<Key,Tp>  (`Model/C11/Lru.lean`)
+
+`LRU.Inv s` : node ids distinct, keys distinct (`NoDupKeys`), the index maps exactly the stored keys to their
+nodes, allocator counter above all ids.  `LRU.abs s` : the recency-ordered `(key, value)` list. -/
+section Lru
+variable {κ ν : Type} [DecidableEq κ]
+
+/-- **all histories**: no key is ever stored twice, and the container shows what the same history gives on a
+    recency-ordered association list (`insert` of a present key = replace and move to front) -/
+theorem lru_runs_refine (ops : List (LRU.Op κ ν)) :
+    LRU.Inv (LRU.run LRU.empty ops) ∧ LRU.NoDupKeys (LRU.run LRU.empty ops) ∧
+      LRU.abs (LRU.run LRU.empty ops) = LRU.specRun [] ops := by
+  have := LRU.run_refines ops (LRU.inv_empty (κ := κ) (ν := ν))
+  exact ⟨this.1, this.1.keys, by simpa [LRU.abs, LRU.empty] using this.2⟩
+
+theorem lru_insert_refines {s : LRU.State κ ν} (h : LRU.Inv s) (k : κ) (v : ν) :
+    LRU.Inv (LRU.insert s k v) ∧ LRU.abs (LRU.insert s k v) = (k, v) :: (LRU.abs s).filter (fun e => !(e.1 == k)) :=
+  LRU.insert_refines h k v
+
+/-- inserting an absent key adds a most-recent entry -/
+theorem lru_insert_new {s : LRU.State κ ν} (h : LRU.Inv s) (k : κ) (v : ν) (hk : ∀ e ∈ LRU.abs s, e.1 ≠ k) :
+    LRU.abs (LRU.insert s k v) = (k, v) :: LRU.abs s ∧ LRU.size (LRU.insert s k v) = LRU.size s + 1 := by
+  have h1 := (LRU.insert_refines h k v).2
+  have h2 : (LRU.abs s).filter (fun e => !(e.1 == k)) = LRU.abs s := by
+    rw [List.filter_eq_self]; intro e he; simp [hk e he]
+  rw [LRU.specInsert, h2] at h1
+  exact ⟨h1, by rw [LRU.size_eq, LRU.size_eq, h1]; simp⟩
+
+/-- the documented behaviour (fixes/C11_lru_insert_existing.patch): inserting a present key keeps the size,
+    replaces the value, makes the entry the most recent one, and `find` yields the new value -/
+theorem lru_insert_existing_replaces {s : LRU.State κ ν} (h : LRU.Inv s) (k : κ) (v : ν) {v₀ : ν}
+    (hk : (k, v₀) ∈ LRU.abs s) :
+    LRU.size (LRU.insert s k v) = LRU.size s ∧ (LRU.abs (LRU.insert s k v)).head? = some (k, v) ∧
+      LRU.find (LRU.insert s k v) k = some (k, v) ∧ LRU.front (LRU.insert s k v) = some v ∧
+      LRU.NoDupKeys (LRU.insert s k v) := by
+  obtain ⟨hi, ha⟩ := LRU.insert_refines h k v
+  have hkeys : ((LRU.abs s).map (·.1)).Nodup := by
+    have := h.keys
+    unfold LRU.NoDupKeys at this
+    unfold LRU.abs
+    rw [List.map_map]
+    exact this
+  have hlen := LRU.length_filter_ne (·.1) hkeys hk
+  refine ⟨?_, by rw [ha]; rfl, ?_, ?_, hi.keys⟩
+  · rw [LRU.size_eq, LRU.size_eq, ha]
+    simp only [LRU.specInsert, List.length_cons]
+    exact hlen
+  · rw [LRU.find_refines hi, ha]; simp [LRU.specFind, LRU.specInsert]
+  · have : (LRU.abs (LRU.insert s k v)).head? = some (k, v) := by rw [ha]; rfl
+    simp only [LRU.abs, List.head?_map] at this
+    simp only [LRU.front]
+    cases hd : (LRU.insert s k v).data.head? with
+    | none => rw [hd] at this; simp at this
+    | some nd => rw [hd] at this; simp at this; simp [this]
+
+/-- `touch` of a present key moves its entry to the front, returns its value, changes nothing else -/
+theorem lru_touch_moves_front {s : LRU.State κ ν} (h : LRU.Inv s) (k : κ) {e : κ × ν}
+    (hk : (LRU.abs s).find? (fun e => e.1 == k) = some e) :
+    ∃ s', LRU.touch s k = some (s', some e.2) ∧ LRU.Inv s' ∧
+      LRU.abs s' = e :: (LRU.abs s).filter (fun e => !(e.1 == k)) := by
+  have := LRU.touch_refines h k
+  cases ht : LRU.touch s k with
+  | none => rw [ht] at this; simp [LRU.specTouch, hk] at this
+  | some r =>
+    obtain ⟨s', rv⟩ := r
+    rw [ht] at this
+    obtain ⟨h1, h2, h3⟩ := this
+    refine ⟨s', ?_, h1, ?_⟩
+    · rw [h3, hk]; rfl
+    · simp [LRU.specTouch, hk] at h2; exact h2.symm
+
+/-- `touch` of an absent key is reported (`Dune::RangeError`) -/
+theorem lru_touch_absent_error {s : LRU.State κ ν} (h : LRU.Inv s) (k : κ) (hk : ∀ e ∈ LRU.abs s, e.1 ≠ k) :
+    LRU.touch s k = none := by
+  have := LRU.touch_refines h k
+  cases ht : LRU.touch s k with
+  | none => rfl
+  | some r =>
+    rw [ht] at this
+    obtain ⟨_, h2, _⟩ := this
+    have : (LRU.abs s).find? (fun e => e.1 == k) = none := by
+      rw [List.find?_eq_none]; intro x hx; simpa using hk x hx
+    simp [LRU.specTouch, this] at h2
+
+/-- `find` yields the entry of the key, `end()` iff the key is absent -/
+theorem lru_find_spec {s : LRU.State κ ν} (h : LRU.Inv s) (k : κ) :
+    LRU.find s k = (LRU.abs s).find? (fun e => e.1 == k) := LRU.find_refines h k
+
+theorem lru_pop_refines {s : LRU.State κ ν} (h : LRU.Inv s) :
+    (LRU.Inv (LRU.popFront s) ∧ LRU.abs (LRU.popFront s) = (LRU.abs s).tail) ∧
+      (LRU.Inv (LRU.popBack s) ∧ LRU.abs (LRU.popBack s) = (LRU.abs s).dropLast) :=
+  ⟨LRU.popFront_refines h, LRU.popBack_refines h⟩
+
+theorem lru_resize_clear_refines {s : LRU.State κ ν} (h : LRU.Inv s) (n : Nat) :
+    (LRU.Inv (LRU.resize s n) ∧ LRU.abs (LRU.resize s n) = (LRU.abs s).take n) ∧
+      (LRU.Inv (LRU.clear s) ∧ LRU.abs (LRU.clear s) = []) :=
+  ⟨LRU.resize_refines h n, LRU.clear_refines s h⟩
+
+/-- non-vacuity: the history of DESIGN.md section 6 #6 on the repaired model … -/
+example : LRU.abs (LRU.run (LRU.empty : LRU.State Int Int) [.insert 1 1, .insert 2 2, .insert 1 3]) = [(1, 3), (2, 2)] := by decide
+example : ∃ s : LRU.State Int Int, LRU.Inv s ∧ ((1 : Int), (1 : Int)) ∈ LRU.abs s ∧ LRU.size s = 2 :=
+  ⟨LRU.run LRU.empty [.insert 1 1, .insert 2 2], (LRU.run_refines _ LRU.inv_empty).1, by decide, by decide⟩
+example : ∃ s : LRU.State Int Int, LRU.Inv s ∧ (LRU.abs s).find? (fun e => e.1 == 1) = some (1, 1) ∧ ∀ e ∈ LRU.abs s, e.1 ≠ 7 :=
+  ⟨LRU.run LRU.empty [.insert 1 1, .insert 2 2], (LRU.run_refines _ LRU.inv_empty).1, by decide, by decide⟩
+/-- … and the defect of the unrepaired `insert`: the same history stores key 1 twice and `find` yields the old value -/
+example :
+    let s := LRU.insertOld (LRU.insertOld (LRU.insertOld (LRU.empty : LRU.State Int Int) 1 1) 2 2) 1 3
+    LRU.abs s = [(1, 3), (2, 2), (1, 1)] ∧ LRU.find s 1 = some (1, 1) := by decide
+
+end Lru
+
+/-! ## ReservedVector<T,n>  (`Model/C11/ReservedVector.lean`)
+
+`RV.Inv n s` : the array has `n` slots and `size_ ≤ n`.  `RV.abs s` : the first `size_` slots. -/
+section ReservedVector
+variable {α : Type} {n : Nat}
+
+theorem rv_push_back_refines {s : RV.State α} (h : RV.Inv n s) (hs : s.size < n) (x : α) :
+    RV.Inv n (RV.pushBack s x) ∧ RV.abs (RV.pushBack s x) = RV.abs s ++ [x] := RV.pushBack_refines h hs x
+
+/-- `pop_back` drops the last element; on an empty vector it does nothing (as coded) -/
+theorem rv_pop_back_refines {s : RV.State α} (h : RV.Inv n s) :
+    RV.Inv n (RV.popBack s) ∧ RV.abs (RV.popBack s) = (RV.abs s).dropLast := RV.popBack_refines h
+
+theorem rv_clear_refines {s : RV.State α} (h : RV.Inv n s) : RV.Inv n (RV.clear s) ∧ RV.abs (RV.clear s) = [] :=
+  RV.clear_refines h
+
+/-- `resize(k)` gives length `k` and keeps the common prefix (slots uncovered by growing are not initialised) -/
+theorem rv_resize_refines {s : RV.State α} (h : RV.Inv n s) {k : Nat} (hk : k ≤ n) :
+    RV.Inv n (RV.resize s k) ∧ (RV.abs (RV.resize s k)).length = k ∧
+      (RV.abs (RV.resize s k)).take s.size = (RV.abs s).take k := RV.resize_refines h hk
+
+theorem rv_set_fill_refines {s : RV.State α} (h : RV.Inv n s) (i : Nat) (x : α) :
+    (RV.Inv n (RV.set s i x) ∧ RV.abs (RV.set s i x) = (RV.abs s).set i x) ∧
+      (RV.Inv n (RV.fill s x) ∧ RV.abs (RV.fill s x) = List.replicate s.size x) :=
+  ⟨RV.set_refines h i x, RV.fill_refines h x⟩
+
+/-- `size()`, `at(i)` (with its range check), `operator[]`, `front()`, `back()` read the abstract vector -/
+theorem rv_access_refines {s : RV.State α} (h : RV.Inv n s) :
+    (RV.abs s).length = s.size ∧ s.size ≤ n ∧ (∀ i, RV.at? s i = (RV.abs s)[i]?) ∧
+      (∀ i, i < s.size → RV.get s i = (RV.abs s)[i]?) ∧
+      (0 < s.size → RV.front s = (RV.abs s).head? ∧ RV.back s = (RV.abs s).getLast?) :=
+  ⟨RV.abs_length h, h.le, RV.at?_eq s, fun _ hi => RV.get_eq hi, fun hs => ⟨RV.front_eq hs, RV.back_eq h hs⟩⟩
+
+/-- the constructors -/
+theorem rv_ctor_refines (d : α) :
+    (RV.Inv n (RV.empty n d) ∧ RV.abs (RV.empty n d) = []) ∧
+      (∀ count v, count ≤ n → RV.Inv n (RV.ofCountValue n d count v) ∧ RV.abs (RV.ofCountValue n d count v) = List.replicate count v) ∧
+      (∀ l : List α, l.length ≤ n → RV.Inv n (RV.ofList n d l) ∧ RV.abs (RV.ofList n d l) = l) :=
+  ⟨⟨RV.inv_empty n d, RV.abs_empty n d⟩, fun _ v hc => RV.ofCountValue_refines d hc v, fun _ hl => RV.ofList_refines d hl⟩
+
+/-- `operator==` is equality of the abstract vectors -/
+theorem rv_eq_iff [BEq α] [LawfulBEq α] {a b : RV.State α} (ha : RV.Inv n a) (hb : RV.Inv n b) :
+    (RV.eq a b = true ↔ RV.abs a = RV.abs b) ∧ RV.ne a b = !(RV.eq a b) := ⟨RV.eq_iff ha hb, rfl⟩
+
+/-- `operator<` is the lexicographic order of the abstract vectors (for an irreflexive, trichotomous `<`);
+    `>`, `<=`, `>=` are defined from it as in the code -/
+theorem rv_lt_iff [LT α] [DecidableRel (α := α) (· < ·)]
+    (irrefl : ∀ x : α, ¬ x < x) (tri : ∀ x y : α, ¬ x < y → ¬ y < x → x = y)
+    {a b : RV.State α} (ha : RV.Inv n a) (hb : RV.Inv n b) :
+    (RV.lt a b = true ↔ RV.abs a < RV.abs b) ∧ RV.gt a b = RV.lt b a ∧
+      RV.le a b = !(RV.lt b a) ∧ RV.ge a b = !(RV.lt a b) :=
+  ⟨RV.lt_iff irrefl tri ha hb, rfl, rfl, rfl⟩
+
+/-- **all histories**: the capacity limit is respected (and the storage never changes its size) -/
+theorem rv_runs_capacity (d : α) (ops : List (RV.Op α)) :
+    RV.Inv n (RV.run n (RV.empty n d) ops) ∧ (RV.abs (RV.run n (RV.empty n d) ops)).length ≤ n := by
+  have h := RV.run_inv ops (RV.inv_empty n d)
+  exact ⟨h, by rw [RV.abs_length h]; exact h.le⟩
+
+example : RV.abs (RV.run 4 (RV.empty 4 (0 : Int)) [.push 5, .push 6, .pop, .pop, .pop, .push 7, .push 8, .set 0 1, .push 9, .push 10, .push 11])
+    = [1, 8, 9, 10] := by decide
+example : ∃ s : RV.State Int, RV.Inv 4 s ∧ s.size = 2 ∧ s.size < 4 :=
+  ⟨RV.run 4 (RV.empty 4 0) [.push 5, .push 6], RV.run_inv _ (RV.inv_empty 4 0), by decide, by decide⟩
+example : (∀ x : Int, ¬ x < x) ∧ (∀ x y : Int, ¬ x < y → ¬ y < x → x = y) :=
+  ⟨fun x => Int.lt_irrefl x, fun x y h1 h2 => by omega⟩
+
+end ReservedVector
+
+/-! ## BitSetVector<B>  (`Model/C11/BitSetVector.lean`)
+
+`BV.Inv B v` : the underlying `vector<bool>` holds whole blocks.  `BV.abs B v` : the list of blocks, each a
+`std::bitset<B>` (list of `B` booleans, index = bit position). -/
+section BitSetVector
+variable {B : Nat}
+
+/-- **all histories**: resize / clear / setAll / unsetAll and every proxy operation (`set`, `reset`, `flip`, single-bit
+    `set/reset/flip`, `= bool`, `= bitset`, `= otherBlock`, `&= |= ^= <<= >>=`) act as the corresponding `std::bitset`
+    operation on the addressed block and leave every other block unchanged (`List.modify`) -/
+theorem bv_runs_refine (hB : 0 < B) (ops : List BV.Op) :
+    BV.Inv B (BV.run B [] ops) ∧ BV.abs B (BV.run B [] ops) = BV.specRun B [] ops := by
+  have h0 : BV.Inv B ([] : BV.Bits) := by simp [BV.Inv]
+  have := BV.run_refines hB ops h0
+  simpa [BV.abs, BV.size] using this
+
+/-- `block_op_spec` + `frame` for the assignment all compound operators go through -/
+theorem bv_block_op_spec {v : BV.Bits} (h : BV.Inv B v) {i : Nat} (hi : i < BV.size B v) {x : BV.Bits} (hx : x.length = B) :
+    BV.getRepr B (BV.assignBits B v i x) i = x ∧
+      (∀ i', i ≠ i' → BV.getRepr B (BV.assignBits B v i x) i' = BV.getRepr B v i') ∧
+      BV.size B (BV.assignBits B v i x) = BV.size B v := by
+  have := BV.assignBits_refines h hi hx
+  refine ⟨this.2.2.1, this.2.2.2, ?_⟩
+  have hl := congrArg List.length this.2.1
+  rw [BV.abs_length, List.length_modify, BV.abs_length] at hl
+  exact hl
+
+/-- the proxy queries `count/any/none/all` and `==` are the `std::bitset` queries on the block -/
+theorem bv_query_spec (v : BV.Bits) (i : Nat) {bs : BV.Bits} (hb : bs.length = B) :
+    BV.countBlock B v i = (BV.getRepr B v i).countP (fun b => b) ∧
+      BV.anyBlock B v i = (BV.countBlock B v i != 0) ∧ BV.noneBlock B v i = !(BV.anyBlock B v i) ∧
+      BV.allBlock B v i = (BV.getRepr B v i).all (fun b => b) ∧
+      (BV.equalsBits B v i bs = true ↔ BV.getRepr B v i = bs) :=
+  ⟨BV.countBlock_eq B v i, rfl, rfl, BV.allBlock_eq B v i, BV.equalsBits_iff v i hb⟩
+
+/-- block `i` is the slice `[i·B, (i+1)·B)` of the base vector, `B` bits wide -/
+theorem bv_block_is_slice {v : BV.Bits} {i : Nat} (hi : i < BV.size B v) :
+    BV.getRepr B v i = (v.drop (i * B)).take B ∧ (BV.getRepr B v i).length = B :=
+  ⟨BV.getRepr_eq_slice hi, BV.length_getRepr B v i⟩
+
+/-- `getBit_addr_inj`: distinct (block, bit) pairs are distinct bits -/
+theorem bv_getBit_addr_inj {i j i' j' : Nat} (hj : j < B) (hj' : j' < B) (h : i * B + j = i' * B + j') : i = i' ∧ j = j' :=
+  BV.addr_inj hj hj' h
+
+example : BV.abs 3 (BV.run 3 [] [.resize 2 false, .setOne 0 1 true, .assignBits 1 [true, true, false], .shl 1 1, .xorBits 0 [true, true, true], .assignRef 1 0])
+    = [[true, false, true], [true, false, true]] := by decide
+example : ∃ v : BV.Bits, BV.Inv 3 v ∧ 1 < BV.size 3 v := ⟨BV.mk 3 2, by unfold BV.Inv; decide, by decide⟩
+
+end BitSetVector
+
+/-! ## SLList<T>  (`Model/C11/SLList.lean`)
+
+`SL.Inv s` : element identities distinct, `tail_` names the last element (the sentinel iff empty), `size_` is the
+chain length.  `SL.items s` : what `begin() … end()` shows.  Pointer structure abstracted to ids (partial: the
+allocator is not modelled). -/
+section SLList
+variable {α : Type}
+
+theorem sl_push_refines {s : SL.State α} (h : SL.Inv s) (x : α) :
+    (SL.Inv (SL.pushBack s x) ∧ SL.items (SL.pushBack s x) = SL.items s ++ [x]) ∧
+      (SL.Inv (SL.pushFront s x) ∧ SL.items (SL.pushFront s x) = x :: SL.items s) :=
+  ⟨SL.pushBack_refines h x, SL.pushFront_refines h x⟩
+
+theorem sl_pop_front_refines {s : SL.State α} (h : SL.Inv s) (hne : SL.items s ≠ []) :
+    SL.Inv (SL.popFront s) ∧ SL.items (SL.popFront s) = (SL.items s).tail := by
+  apply SL.popFront_refines h
+  cases hn : s.nodes with
+  | nil => simp [SL.items, hn] at hne
+  | cons _ _ => simp
+
+/-- `(begin()+k).insertAfter(x)` and `(begin()+k).deleteNext()` through plain iterators -/
+theorem sl_iterator_insert_delete_refines {s : SL.State α} (h : SL.Inv s) (k : Nat) (x : α) :
+    (k < (SL.items s).length →
+        SL.Inv (SL.insertAfter s (SL.ptrAt s k) x) ∧
+        SL.items (SL.insertAfter s (SL.ptrAt s k) x) = (SL.items s).take (k + 1) ++ x :: (SL.items s).drop (k + 1)) ∧
+      (k + 1 < (SL.items s).length →
+        SL.Inv (SL.deleteNext true s (SL.ptrAt s k)) ∧
+        SL.items (SL.deleteNext true s (SL.ptrAt s k)) = (SL.items s).take (k + 1) ++ (SL.items s).drop (k + 2)) := by
+  have hl : (SL.items s).length = s.nodes.length := by simp [SL.items]
+  rw [SL.ptrAt_eq h.ids]
+  constructor
+  · intro hk
+    have := SL.insertAfter_refines h (j := k + 1) (by omega) x
+    exact ⟨this.1, this.2.1⟩
+  · intro hk
+    have := SL.deleteNext_refines h (j := k + 1) (by omega)
+    exact ⟨this.1, this.2.1⟩
+
+theorem sl_clear_copy_assign_refines {s : SL.State α} (h : SL.Inv s) (o : SL.State α) :
+    (SL.Inv (SL.clear s) ∧ SL.items (SL.clear s) = []) ∧
+      (SL.Inv (SL.copy o) ∧ SL.items (SL.copy o) = SL.items o) ∧
+      (SL.Inv (SL.assign s (some o)) ∧ SL.items (SL.assign s (some o)) = SL.items o) :=
+  ⟨SL.clear_refines h, SL.copy_refines o, SL.assign_refines h o⟩
+
+/-- self-assignment is the identity (fixes/C11_sllist_selfassign.patch); the unrepaired code emptied the list -/
+theorem sl_assign_self (s : SL.State α) : SL.assign s none = s := rfl
+
+theorem sl_assignUnguarded_self_empties {s : SL.State α} (h : SL.Inv s) : SL.items (SL.assignUnguarded s none) = [] :=
+  SL.assignUnguarded_self h
+
+/-- `size()`, `empty()`, `operator==`, `operator!=` read the abstract sequence -/
+theorem sl_observers {a b : SL.State α} [BEq α] [LawfulBEq α] (ha : SL.Inv a) (hb : SL.Inv b) :
+    a.size = ((SL.items a).length : Int) ∧ (SL.isEmpty a = true ↔ SL.items a = []) ∧
+      (SL.eq a b = true ↔ SL.items a = SL.items b) ∧ SL.ne a b = !(SL.eq a b) :=
+  ⟨by rw [ha.size]; simp [SL.items], SL.isEmpty_iff ha, SL.eq_iff ha hb, SL.ne_eq_not_eq a b⟩
+
+/-- modify iterators: `beginModify/endModify` stand at positions `0`/`length`; `insert` puts the value in front of
+    the position and stays behind it, `remove` deletes the element at the position, `*` reads it -/
+theorem sl_modify_iterator_refines {s : SL.State α} (h : SL.Inv s) {m : SL.MIt} {j : Nat} (hm : SL.ModInv s m j) (x : α) :
+    SL.ModInv s (SL.beginModify s) 0 ∧ SL.ModInv s (SL.endModify s) (SL.items s).length ∧
+      SL.mDeref s m = (SL.items s)[j]? ∧
+      (SL.Inv (SL.mInsert s m x).1 ∧ SL.items (SL.mInsert s m x).1 = (SL.items s).take j ++ x :: (SL.items s).drop j ∧
+        SL.ModInv (SL.mInsert s m x).1 (SL.mInsert s m x).2 (j + 1)) ∧
+      (j < (SL.items s).length →
+        SL.ModInv s (SL.mIncrement s m) (j + 1) ∧
+        SL.Inv (SL.mRemove s m).1 ∧ SL.items (SL.mRemove s m).1 = (SL.items s).take j ++ (SL.items s).drop (j + 1) ∧
+        SL.ModInv (SL.mRemove s m).1 (SL.mRemove s m).2 j) := by
+  have hl : (SL.items s).length = s.nodes.length := by simp [SL.items]
+  refine ⟨SL.beginModify_inv h, by rw [hl]; exact SL.endModify_inv h, SL.mDeref_eq h hm, SL.mInsert_refines h hm x, ?_⟩
+  intro hj
+  exact ⟨SL.mIncrement_inv h hm (by omega), SL.mRemove_refines h hm (by omega)⟩
+
+/-- **all histories** (push_back/push_front/pop_front/clear, insertAfter/deleteNext through iterators, self- and
+    cross-assignment, and a modify iterator being created, advanced, inserted and removed through): the invariant
+    (in particular the tail pointer) holds and the list shows the abstract sequence with the abstract cursor -/
+theorem sl_runs_refine (ops : List (SL.Op α)) :
+    SL.Rel (SL.run ⟨SL.empty, none⟩ ops) (SL.specRun ⟨[], none⟩ ops) :=
+  SL.run_refines ops SL.rel_empty
+
+example : SL.items (SL.run (⟨SL.empty, none⟩ : SL.World Int)
+    [.pushBack 1, .pushBack 2, .pushFront 0, .mBegin, .mInc, .mIns 7, .mRem, .mIns 8, .assignSelf, .mEnd, .mIns 9, .delNext 0, .pushBack 5]).s
+    = [0, 8, 2, 9, 5] := by decide
+example : ∃ (s : SL.State Int) (m : SL.MIt), SL.Inv s ∧ SL.ModInv s m 1 ∧ 1 < (SL.items s).length :=
+  ⟨(SL.run ⟨SL.empty, none⟩ [.pushBack 1, .pushBack 2, .mBegin, .mInc]).s, SL.mIncrement _ (SL.beginModify _),
+    (SL.run_refines (α := Int) [.pushBack 1, .pushBack 2] SL.rel_empty).inv,
+    SL.mIncrement_inv (SL.run_refines (α := Int) [.pushBack 1, .pushBack 2] SL.rel_empty).inv
+      (SL.beginModify_inv (SL.run_refines (α := Int) [.pushBack 1, .pushBack 2] SL.rel_empty).inv) (by decide),
+    by decide⟩
+
+end SLList
+
 end DV.C11
